@@ -175,6 +175,51 @@ pub fn run(tier: &str, seed: u64, dir: &str) {
             }
         }
     }
+    // ---- the standards: Rgb<S, T> / Luma<S, T>::{from,into}_linear go through the curve the standard's document prescribes
+    // (third column: the published association, written here independently of palette's `type TransferFn = …` lines)
+    {
+        use palette::encoding::{Rec2020, Rec709, DciP3, DisplayP3, Linear};
+        use palette::rgb::{Rgb, RgbStandard};
+        use palette::luma::{Luma, LumaStandard};
+        let mut sub: Vec<f64> = grid.iter().step_by((grid.len() / 300).max(1)).cloned().collect();
+        for t in [0.0031308, 0.04045, 0.018053968510807, 4.5 * 0.018053968510807, 0.001953125, 0.03125] { for k in -2..=2 { sub.push(nudge64(t, k)); } }
+        macro_rules! std_case { ($s:ty, $name:expr, $curve:expr) => {{
+            type Sp = <$s as RgbStandard>::Space; type Wp = <$s as LumaStandard>::WhitePoint;
+            for &x in &sub {
+                let x32 = x as f32;
+                let rf64 = Rgb::<$s, f64>::from_linear(Rgb::<Linear<Sp>, f64>::new(x, 0.0, 1.0)).red; let ri64 = Rgb::<$s, f64>::new(x, 0.0, 1.0).into_linear::<f64>().red;
+                let lf64 = Luma::<$s, f64>::from_linear(Luma::<Linear<Wp>, f64>::new(x)).luma; let li64 = Luma::<$s, f64>::new(x).into_linear::<f64>().luma;
+                let rf32 = Rgb::<$s, f32>::from_linear(Rgb::<Linear<Sp>, f32>::new(x32, 0.0, 1.0)).red; let ri32 = Rgb::<$s, f32>::new(x32, 0.0, 1.0).into_linear::<f32>().red;
+                let lf32 = Luma::<$s, f32>::from_linear(Luma::<Linear<Wp>, f32>::new(x32)).luma; let li32 = Luma::<$s, f32>::new(x32).into_linear::<f32>().luma;
+                for (kind, dirn, y64, y32) in [("rgb", "from", rf64, rf32), ("rgb", "into", ri64, ri32), ("luma", "from", lf64, lf32), ("luma", "into", li64, li32)] {
+                    out.case(&format!("stdcurve {} {} {} | {} | {}", $name, kind, dirn, h64(x), h64(y64)));
+                    out.case(&format!("stdcurve {} {} {} | {} | {}", $name, kind, dirn, h32(x32), h32(y32)));
+                    let want = if dirn == "into" { std_eotf($curve, x) } else { std_oetf($curve, x) };
+                    out.check((y64 - want).abs() <= 1e-12, &format!("standard-curve:{}:{}:{}:f64", $name, kind, dirn), || format!("{:e} -> {:e}, the standard's curve ({}) gives {:e}", x, y64, $curve, want));
+                    let want32 = if dirn == "into" { std_eotf($curve, x32 as f64) } else { std_oetf($curve, x32 as f64) };
+                    out.check((y32 as f64 - want32).abs() <= 4e-6 * want32.max(0.02), &format!("standard-curve:{}:{}:{}:f32", $name, kind, dirn), || format!("{:e} -> {:e}, the standard's curve ({}) gives {:e}", x32, y32, $curve, want32));
+                }
+                out.count("cls:standard-curve");
+            }
+        }} }
+        // the 8-bit forms of the standards with a lookup table: same code / same value as the table of the published curve
+        macro_rules! std_u8 { ($s:ty, $name:expr, $curve:expr) => {{
+            type Sp = <$s as RgbStandard>::Space; type Wp = <$s as LumaStandard>::WhitePoint;
+            for &x in sub.iter().step_by(3) {
+                let x32 = x as f32;
+                let r = Rgb::<$s, u8>::from_linear(Rgb::<Linear<Sp>, f32>::new(x32, 0.0, 1.0)).red; let l = Luma::<$s, u8>::from_linear(Luma::<Linear<Wp>, f32>::new(x32)).luma;
+                out.check(r == enc_u8_f32($curve, x32) && l == r, &format!("standard-curve:{}:u8:from", $name), || format!("{:e}: Rgb {} Luma {} table of {} {}", x32, r, l, $curve, enc_u8_f32($curve, x32)));
+            }
+            for c in 0..=255u8 {
+                let r: f32 = Rgb::<$s, u8>::new(c, 0, 255).into_linear::<f32>().red; let l: f32 = Luma::<$s, u8>::new(c).into_linear::<f32>().luma;
+                out.check(r.to_bits() == dec_u8_f32($curve, c).to_bits() && l.to_bits() == r.to_bits(), &format!("standard-curve:{}:u8:into", $name), || format!("code {}: Rgb {:e} Luma {:e} table of {} {:e}", c, r, l, $curve, dec_u8_f32($curve, c)));
+            }
+        }} }
+        std_case!(Srgb, "Srgb", "srgb"); std_case!(Rec709, "Rec709", "rec"); std_case!(Rec2020, "Rec2020", "rec"); std_case!(AdobeRgb, "AdobeRgb", "adobe");
+        std_case!(DciP3, "DciP3", "p3"); std_case!(DisplayP3, "DisplayP3", "srgb"); std_case!(ProPhotoRgb, "ProPhotoRgb", "prophoto");
+        std_u8!(Srgb, "Srgb", "srgb"); std_u8!(Rec709, "Rec709", "rec"); std_u8!(Rec2020, "Rec2020", "rec"); std_u8!(AdobeRgb, "AdobeRgb", "adobe");
+        std_u8!(DciP3, "DciP3", "p3"); std_u8!(DisplayP3, "DisplayP3", "srgb");
+    }
     // ---- exhaustive (thorough): every f32 bit pattern through every u8 encoder and the u16 encoder
     let mut extra = String::new();
     if tier == "thorough" {
